@@ -548,12 +548,10 @@ func init() {
 							if e := bytes.IndexByte(item, '='); e >= 0 {
 								k, val = item[:e], item[e+1:]
 							}
-							for _, kk := range [][]byte{bytes.Trim(k, " "), c06TrimWsp(k)} {
-								for _, vv := range [][]byte{c06CanonText(val), c06CanonText(c06TrimWsp(val)), c06TrimWsp(val), bytes.Trim(val, " ")} {
-									if bytes.Equal(kk, sc[0]) && bytes.Equal(vv, sc[1]) {
-										found = true
-									}
-								}
+							// edge whitespace (SP / HT) and one pair of quotes are value syntax, not content (RFC 6265 §5.2; the header parser also trims OWS)
+							norm := func(x []byte) []byte { return c06TrimWsp(c06CanonText(c06TrimWsp(x))) }
+							if bytes.Equal(c06TrimWsp(k), c06TrimWsp(sc[0])) && bytes.Equal(norm(val), norm(sc[1])) {
+								found = true
 							}
 						}
 						if !found {
